@@ -75,6 +75,14 @@ def deserialize_fixed (s : List Nat) : Res (SR Zoned) := visit_str s
 def deserialize_utc (s : List Nat) : Res (SR Zoned) :=
   (visit_str s).bind fun r => .ok (r.map fun z => z.with_timezone 0)
 
+/-- `Deserialize for DateTime<Local>` (src/datetime/serde.rs, feature `clock`):
+`deserialize_str(DateTimeVisitor).map(|dt| dt.with_timezone(&Local))`.  `with_timezone(&Local)` is
+`Local.from_utc_datetime(&dt.naive_utc())`: the UTC reading is kept and the offset is the one the process
+time zone prescribes at that instant — a parameter here (`tzOff`, the function `Local::offset_from_utc_datetime`
+of the running process; a constant function for a fixed-offset `TZ`). -/
+def deserialize_local (tzOff : NaiveDT → Int) (s : List Nat) : Res (SR Zoned) :=
+  (visit_str s).bind fun r => .ok (r.map fun z => z.with_timezone (tzOff z.utc))
+
 /-- serialize, then read the text back as `DateTime<FixedOffset>` -/
 def roundTrip (z : Zoned) : Res (SR Zoned) :=
   match serialize z with
